@@ -3,10 +3,10 @@
    node addresses) the generated Cursor methods take; c_Valid ... c_Prev call G.Cursor_Valid ...
    G.Cursor_Prev of Gen/FnStree.v on it and on the node heap h of the map's tree.  [crepr h root c n ps]
    (StreeTieCursor.v): the pair stands for the model cursor c.  Composed from C03_valid_is_source,
-   C03_key_is_source and the local forms of C03_next/prev_is_source. *)
+   C03_key_is_source and cstep_sim (C03_next/prev_is_source in their local forms + the cursor invariant). *)
 From Coq Require Import ZArith List Bool Arith Lia.
 From Mds Require Import Common.FnRt Common.FnHeap GenTie.TieLib GenTie.StreeTieBase GenTie.StreeTieCursor
-  GenTie.StreeSourceCursorNext GenTie.OmapTieBase.
+  GenTie.StreeSep GenTie.StreeSourceCursorNext GenTie.StreeSourceCursor GenTie.OmapTieBase.
 From Mds Require Gen.FnOmap Omap.OmapModel.
 Import ListNotations.
 Local Open Scope Z_scope.
@@ -52,26 +52,30 @@ Proof.
   exists (snd e). unfold OM.ivalue, O.Value, c_Key. cbn [fst snd]. unfold OM.kv in *. rewrite M, G1. split; reflexivity.
 Qed.
 
-Lemma next_tie (h : heap) root (m : OM.omap K V) c n ps fuel :
-  sibdist_at h ps -> repr h root (OM.mtree K V m) -> crepr h root c n ps -> cwf (OM.mtree K V m) c ->
-  (fuel > length ps + depth (OM.mtree K V m))%nat ->
+(* Next / Prev: on a tree-shaped region (trepr: the cells along the path then have distinct children, which the
+   walk up compares by address); the new cursor is again well-formed, so the ties chain *)
+Lemma next_tie (h : heap) root (m : OM.omap K V) F c n ps fuel :
+  trepr h root (OM.mtree K V m) F -> crepr h root c n ps -> cwf (OM.mtree K V m) c ->
+  (fuel > 2 * depth (OM.mtree K V m) + 1)%nat ->
   exists c' ps', OM.inext K V m c = SM.Ok c' /\ O.Next_ (n, ps) (c_Next h fuel) = Ok (n, ps') /\
-                 crepr h root c' n ps'.
+                 crepr h root c' n ps' /\ cwf (OM.mtree K V m) c'.
 Proof.
-  intros SD Rt Cr W Hf. destruct (C03_next_local h root _ c n ps fuel SD Rt Cr W Hf) as [c' [ps' [M [G1 Cr']]]].
-  exists c', ps'. unfold OM.inext, O.Next_, c_Next. cbn [fst snd]. unfold OM.kv in *. rewrite M, G1.
-  split; [reflexivity|]. split; [reflexivity|exact Cr'].
+  intros R Cr W Hf. unfold OM.kv in *.
+  destruct (@cstep_sim kv (zk, zv) h root _ F c n ps CM.MNext fuel R Cr W Hf) as [c' [ps' [M [G1 [Cr' W']]]]].
+  exists c', ps'. cbn [CM.step cstep] in M, G1. unfold OM.inext, O.Next_, c_Next. cbn [fst snd]. unfold OM.kv in *. rewrite M, G1.
+  repeat split; assumption.
 Qed.
 
-Lemma prev_tie (h : heap) root (m : OM.omap K V) c n ps fuel :
-  sibdist_at h ps -> repr h root (OM.mtree K V m) -> crepr h root c n ps -> cwf (OM.mtree K V m) c ->
-  (fuel > length ps + depth (OM.mtree K V m))%nat ->
+Lemma prev_tie (h : heap) root (m : OM.omap K V) F c n ps fuel :
+  trepr h root (OM.mtree K V m) F -> crepr h root c n ps -> cwf (OM.mtree K V m) c ->
+  (fuel > 2 * depth (OM.mtree K V m) + 1)%nat ->
   exists c' ps', OM.iprev K V m c = SM.Ok c' /\ O.Prev (n, ps) (c_Prev h fuel) = Ok (n, ps') /\
-                 crepr h root c' n ps'.
+                 crepr h root c' n ps' /\ cwf (OM.mtree K V m) c'.
 Proof.
-  intros SD Rt Cr W Hf. destruct (C03_prev_local h root _ c n ps fuel SD Rt Cr W Hf) as [c' [ps' [M [G1 Cr']]]].
-  exists c', ps'. unfold OM.iprev, O.Prev, c_Prev. cbn [fst snd]. unfold OM.kv in *. rewrite M, G1.
-  split; [reflexivity|]. split; [reflexivity|exact Cr'].
+  intros R Cr W Hf. unfold OM.kv in *.
+  destruct (@cstep_sim kv (zk, zv) h root _ F c n ps CM.MPrev fuel R Cr W Hf) as [c' [ps' [M [G1 [Cr' W']]]]].
+  exists c', ps'. cbn [CM.step cstep] in M, G1. unfold OM.iprev, O.Prev, c_Prev. cbn [fst snd]. unfold OM.kv in *. rewrite M, G1.
+  repeat split; assumption.
 Qed.
 
 End OmapIter.
